@@ -1,4 +1,5 @@
 """Verification units: a repository function + sidecar contract -> named obligations -> verdicts."""
+import os
 import time
 import traceback
 import z3
@@ -123,19 +124,41 @@ def run_unit(repo, unit, default_cfg_factory, timeout_ms=10000):
             witness = None
             tsum = 0.0
             for ob in o["cases"]:
-                s = z3.Solver()
-                s.set("timeout", timeout_ms)
-                for f in ob.pc:
-                    s.add(f)
-                s.add(z3.Not(ob.formula))
                 t1 = time.time()
-                r = s.check()
+                r = None
+                # stage 1: e-matching only (fast `unsat` whenever instances suffice); stage 2: full
+                # (model-based instantiation) to obtain `sat` with a counter-model
+                for stage in (0, 1, 2):
+                    s = z3.Solver()
+                    s.set("timeout", timeout_ms if stage == 2 else max(2000, timeout_ms // 3))
+                    if stage == 1:
+                        s.set("smt.mbqi", False)
+                    nq = 0
+                    for f in ob.pc:
+                        if stage == 0:
+                            f2 = strip_quantified(f)
+                            if f2 is None:
+                                nq += 1
+                                continue
+                            f = f2
+                        s.add(f)
+                    if stage == 0 and nq == 0 and not has_quantifier(ob.formula):
+                        stage = 2       # nothing was dropped: this is already the full query
+                        s.set("timeout", timeout_ms)
+                    s.add(z3.Not(ob.formula))
+                    r = s.check()
+                    if r == z3.unsat:
+                        break
+                    if stage == 0 and os.environ.get("PYVC_DEBUG_QF") and r == z3.sat:
+                        print("QF-sat for", ob.name, false_conjuncts(s.model(), ob.formula))
+                    if stage == 2:
+                        break
                 tsum += time.time() - t1
                 if r == z3.sat:
                     verdict = "refuted"
                     m = s.model()
                     witness = {"decisions": [[str(a), bool(b)] for a, b in ob.decisions],
-                               "model": model_summary(m), "info": ob.info}
+                               "model": model_summary(m), "info": ob.info, "false_conjuncts": false_conjuncts(m, ob.formula)}
                     break
                 if r == z3.unknown:
                     verdict = "unknown"
@@ -154,6 +177,54 @@ def run_unit(repo, unit, default_cfg_factory, timeout_ms=10000):
         res["trace"] = traceback.format_exc()
     res["wall_s"] = round(time.time() - t0, 3)
     return res
+
+
+def has_quantifier(f):
+    seen = set()
+    work = [f]
+    while work:
+        x = work.pop()
+        if x.get_id() in seen:
+            continue
+        seen.add(x.get_id())
+        if z3.is_quantifier(x):
+            if x.is_lambda():
+                work.append(x.body())
+                continue
+            return True
+        work.extend(x.children())
+    return False
+
+
+def strip_quantified(f):
+    """Drop quantified conjuncts of a hypothesis (weakening it): None if nothing is left."""
+    if not has_quantifier(f):
+        return f
+    if z3.is_and(f):
+        keep = [strip_quantified(c) for c in f.children()]
+        keep = [k for k in keep if k is not None]
+        return z3.And(keep) if keep else None
+    return None
+
+
+def false_conjuncts(m, f, depth=0):
+    """Which conjuncts of the failed clause are false in the counter-model (diagnostic only)."""
+    out = []
+    try:
+        if z3.is_and(f) and depth < 3:
+            for c in f.children():
+                out += false_conjuncts(m, c, depth + 1)
+        elif z3.is_implies(f) and depth < 3:
+            if z3.is_true(m.eval(f.arg(0), model_completion=True)):
+                out += false_conjuncts(m, f.arg(1), depth + 1)
+        else:
+            v = m.eval(f, model_completion=True)
+            if z3.is_false(v):
+                s = f.sexpr().replace("\n", " ")
+                out.append(s[:300])
+    except Exception:
+        pass
+    return out[:6]
 
 
 def model_summary(m, limit=60):
